@@ -159,6 +159,7 @@ def run(check, ctx):
     from . import c_ec, c_mont
     c_ec.curve_conformance(check, repo)
     c_ec.ec_tables(check, ctx)
+    c_ec.newpoint_tables(check, ctx)
     # the Edwards curves: field layer of 25519 and the group-law cases (torsion points included) for Ed25519 / Ed448
     from . import c_ed
     c_ed.ed_tables(check, ctx)
